@@ -165,9 +165,9 @@ def audit(prop_module: str) -> dict:
         tmp.unlink(missing_ok=True)
     out = p.stdout + p.stderr
     res["log"] += out[-3000:] if p.returncode else ""
-    for m in re.finditer(r"'([^']+)' depends on axioms: \[([^\]]*)\]", out, flags=re.S):
+    for m in re.finditer(r"'(\S+)' depends on axioms: \[([^\]]*)\]", out, flags=re.S):
         res["axioms"][m.group(1)] = [a.strip() for a in m.group(2).replace("\n", " ").split(",") if a.strip()]
-    for m in re.finditer(r"'([^']+)' does not depend on any axioms", out):
+    for m in re.finditer(r"'(\S+)' does not depend on any axioms", out):
         res["axioms"][m.group(1)] = []
     for t in thms:
         ax = res["axioms"].get(t)
